@@ -272,10 +272,38 @@ func (vc *VC) callFuncValue(st *State, x *ast.CallExpr, ci *calleeInfo, sig *typ
 	if cb := vc.callbackSpec(name); cb != nil {
 		return vc.callCallback(st, x, cb, sig, fv, args)
 	}
+	// a package-level variable of function type (e.g. grammar.CmpTerminal) may carry a contract of its own,
+	// written like a function contract under the variable's name
+	if pv := vc.packageFuncVar(ci.fvalue); pv != nil {
+		key := pv.Pkg().Path() + "." + pv.Name()
+		if fc, ok := vc.eng.contracts[key]; ok {
+			fn := types.NewFunc(pv.Pos(), pv.Pkg(), pv.Name(), sig)
+			ci2 := &calleeInfo{fn: fn, key: key, typeArgs: map[string]types.Type{}}
+			vc.note("A-FUNCVAR<" + key + ">: the package-level function variable is never reassigned; calls through it use its contract")
+			return vc.callByContract(st, x, fc, ci2, sig, nil, args)
+		}
+	}
 	vc.uncontracted["<funcvalue> "+name] = true
 	vc.havocAllHeaps(st)
 	vc.havocGhostVars(st)
 	return vc.freshResults(st, sig, "r_"+smtName(name))
+}
+
+func (vc *VC) packageFuncVar(e ast.Expr) *types.Var {
+	var id *ast.Ident
+	switch f := ast.Unparen(e).(type) {
+	case *ast.Ident:
+		id = f
+	case *ast.SelectorExpr:
+		id = f.Sel
+	default:
+		return nil
+	}
+	v, ok := vc.info.ObjectOf(id).(*types.Var)
+	if !ok || v.Pkg() == nil || v.Parent() != v.Pkg().Scope() {
+		return nil
+	}
+	return v
 }
 
 func exprString(e ast.Expr) string {
@@ -351,6 +379,9 @@ func (vc *VC) callByContract(st *State, x *ast.CallExpr, fc *FuncContract, ci *c
 	for _, m := range fc.Modifies {
 		ctx.cur = st
 		ctx.old = old
+		if vc.mutateSliceParam(st, ctx, x, fc, ci, m, args) {
+			continue
+		}
 		vc.havocLocation(ctx, st, m)
 	}
 	// callee may allocate
@@ -365,11 +396,38 @@ func (vc *VC) callByContract(st *State, x *ast.CallExpr, fc *FuncContract, ci *c
 	ctx.cur = st
 	ctx.old = old
 	vc.bindResults(ctx, ci.fn, results)
+	if len(fc.Callbacks) > 0 {
+		vc.havocClientInv(st) // the callee may have run callbacks, which own the client invariant
+	}
 	for _, e := range fc.Ensures {
 		t := ctx.tr(e.Expr)
 		vc.assume(st, t.S)
 	}
 	if vc.contract != nil {
+		for _, cs := range vc.contract.Callsites {
+			if len(cs.Assumes) == 0 || !(fc.Key == cs.Callee || strings.HasSuffix(fc.Key, "/"+cs.Callee) || strings.HasSuffix(fc.Key, "."+cs.Callee)) {
+				continue
+			}
+			own := vc.newSpecCtx(vc.contract, st, old)
+			vc.bindOwnParams(own)
+			for i, a := range args {
+				own.vars[fmt.Sprintf("arg%d", i)] = a
+			}
+			for i, r := range results {
+				own.vars[fmt.Sprintf("result%d", i)] = r
+			}
+			if len(results) > 0 {
+				own.vars["result"] = results[0]
+			}
+			for _, r := range cs.Assumes {
+				vc.assume(st, own.tr(r.Expr).S)
+				lbl := r.Label
+				if lbl == "" {
+					lbl = "LEMMA"
+				}
+				vc.note(fmt.Sprintf("A-%s<%s after %s>: assumed by stated lemma, not proved: %s", lbl, shortKey(vc.unit.Key), cs.Callee, r.Text))
+			}
+		}
 		for _, n := range vc.contract.Track {
 			if strings.HasSuffix(fc.Key, "."+n) {
 				nv := vc.callbackVar("ncalls", n)
@@ -567,6 +625,7 @@ func (vc *VC) evalBuiltin(st *State, x *ast.CallExpr, name string) []Term {
 		ps := vc.U.sortOf(t)
 		ref := vc.newRef(st)
 		vc.storeRef(st, ref, ps.Elem, vc.U.zero(ps.Elem))
+		vc.initGhostFields(st, Term{ref, ps})
 		return []Term{{ref, ps}}
 	case "panic":
 		vc.eval(st, x.Args[0])
@@ -668,6 +727,7 @@ func (vc *VC) callCallback(st *State, x *ast.CallExpr, cb *CallbackSpec, sig *ty
 	// the abstract callback invariant is owned by the callbacks
 	cv := vc.cbinvVar()
 	st.vars[cv] = vc.fresh("cbinv", &Sort{Kind: KSet, Name: "(Array Int Bool)", Elem: sortInt})
+	vc.havocClientInv(st)
 	results := vc.freshResults(st, sig, "r_"+smtName(cb.Name))
 	// ghost bookkeeping: number of calls and the error returned by the last call
 	nv := vc.callbackVar("ncalls", cb.Name)
@@ -724,6 +784,24 @@ func (vc *VC) callbackVar(kind, name string) *types.Var {
 }
 
 
+// clientinvVar: the ghost boolean "the client's own invariant holds" (see clientinv() in spec.go).
+// A-CLIENT-SEP: the client state it speaks about is reachable only through the callbacks, so only calls
+// that may run callbacks change it.
+func (vc *VC) clientinvVar() *types.Var {
+	if vc.clientinvV == nil {
+		vc.clientinvV = types.NewVar(token.NoPos, vc.pkg.Types, "$clientinv", types.Typ[types.Bool])
+		vc.entry.vars[vc.clientinvV] = vc.fresh("clientinv", sortBool)
+		vc.note("A-CLIENT-SEP: the abstract client invariant clientinv() speaks about state reachable only through the callbacks; only calls that may run callbacks change it")
+	}
+	return vc.clientinvV
+}
+
+func (vc *VC) havocClientInv(st *State) {
+	if vc.clientinvV != nil {
+		st.vars[vc.clientinvV] = vc.fresh("clientinv", sortBool)
+	}
+}
+
 // cbinvVar: the ghost set {d | the abstract callback invariant holds at depth d}.
 func (vc *VC) cbinvVar() *types.Var {
 	if vc.cbinvV == nil {
@@ -770,4 +848,43 @@ func (vc *VC) callbackSpec(name string) *CallbackSpec {
 	m.Provides = append(append([]*Clause{}, inherited.Provides...), own.Provides...)
 	m.Ensures = append(append([]*Clause{}, inherited.Ensures...), own.Ensures...)
 	return m
+}
+
+
+// mutateSliceParam: `modifies a` where a is a slice parameter means the callee may overwrite the elements of the
+// caller's slice in place (same length). Slices are values in the model, so the caller's variable is given new
+// contents; inside the callee's ensures `a` is the new value and old(a) the value passed.
+func (vc *VC) mutateSliceParam(st *State, ctx *SpecCtx, x *ast.CallExpr, fc *FuncContract, ci *calleeInfo, m *Clause, args []Term) bool {
+	id, ok := m.Expr.(*SIdent)
+	if !ok || ci.fn == nil {
+		return false
+	}
+	sig := ci.fn.Origin().Type().(*types.Signature)
+	for i := 0; i < sig.Params().Len() && i < len(args) && i < len(x.Args); i++ {
+		name := sig.Params().At(i).Name()
+		if i < len(fc.ParamNames) && fc.ParamNames[i] != "" {
+			name = fc.ParamNames[i]
+		}
+		if name != id.Name || args[i].Sort == nil || args[i].Sort.Kind != KSlice {
+			continue
+		}
+		if sig.Variadic() && i == sig.Params().Len()-1 {
+			return false
+		}
+		ss := args[i].Sort
+		arr := vc.fresh("marr", &Sort{Kind: KArr, Name: "(Array Int " + ss.Elem.Name + ")", Elem: ss.Elem})
+		nv := vc.bind("msl", Term{fmt.Sprintf("(mk_%s %s %s)", ss.Name, arr.S, vc.sliceLen(args[i])), ss})
+		vc.assignTo(st, x.Args[i], nv)
+		if ctx.oldVars == nil {
+			ctx.oldVars = map[string]Term{}
+		}
+		for _, n := range []string{name, sig.Params().At(i).Name(), fmt.Sprintf("arg%d", i)} {
+			if n != "" && n != "_" {
+				ctx.oldVars[n] = args[i]
+				ctx.vars[n] = nv
+			}
+		}
+		return true
+	}
+	return false
 }
